@@ -16,7 +16,11 @@ the byte level of the reader is property C20).
 Modelling decisions
 * A file line IS the entry it encodes (the harness tests
   `decode(encode e) = e` for every generated entry).  A file exists iff it is
-  non-empty (files are only created by a flush of a non-empty buffer).
+  non-empty (files are only created by a flush of a non-empty buffer); a
+  zero-byte current file (residue of a failed first write) is the same state
+  as no current file: `readFileFirstTimeValue` fails on both and
+  `checkAndRotate` then rotates nothing (the harness puts such a file in place
+  for the duration of a rotation check).
 * `ts` is the entry's time in ns.  Go's zero `time.Time` (`olderThan.IsZero()`,
   `oldest.IsZero()`, `oldestNano == 0`) is `none`.
 * Strings are bytes, decoded as Go decodes UTF-8; `strings.EqualFold` is rune-wise
@@ -598,7 +602,8 @@ def shutdown (s : State) : State := if s.conf.fileEnabled then flush s else s
 def rotate (s : State) : State :=
   if s.cur = [] then s else { s with rot := s.cur, cur := [] }
 
-/-- `checkAndRotate` at time `now`. -/
+/-- `checkAndRotate` at time `now`; `[]`: the current file is absent or has no
+record — the first time value cannot be read, nothing is rotated. -/
 def rotCheck (s : State) (now : Int) : State :=
   match s.cur with
   | [] => s
